@@ -46,6 +46,7 @@ class KaniGroupResult:
         self.wall_s = 0.0
         self.log_path = None
         self.stubs = []
+        self.contracts = []
 
 
 def prepare_workspace(tag, repo="/repo"):
@@ -88,6 +89,24 @@ def inject(ws, crate, files, cfg="any(kani, verif_replay)"):
     if "mod verif_harness;" not in text:
         with open(hostpath, "a") as f:
             f.write("\n#[cfg(%s)]\nmod verif_harness;\n" % cfg)
+
+
+def inject_contracts(ws, crate):
+    """place the Kani contract attributes of kani/contracts.py in front of the real functions (scratch copy only)"""
+    sys.path.insert(0, os.path.join(VERIF_ROOT, "kani"))
+    import importlib
+    import contracts
+    importlib.reload(contracts)
+    from vextract import Source, find_item
+    done = []
+    for c in contracts.CONTRACTS.get(crate, []):
+        S = Source(ws, c["file"])
+        it = find_item(S, c["select"], c.get("mod"))
+        pos = S.toks[it.lo].start
+        text = S.src[:pos] + c["attrs"].strip() + "\n" + S.src[pos:]
+        open(S.path, "w").write(text)
+        done.append("%s %s" % (c["file"], c["select"]))
+    return done
 
 
 def cleanup(base, lock):
@@ -217,6 +236,14 @@ def run_group(tag, crate, harness_files, harnesses, repo="/repo", features=None,
     base, ws, lock = prepare_workspace(tag, repo)
     try:
         inject(ws, crate, harness_files)
+        try:
+            out.contracts = inject_contracts(ws, crate)
+        except Exception as e:  # lost anchor => undecided, never an alarm
+            out.reason = "contract injection failed: %s" % e
+            out.harnesses = {h: HarnessResult(h) for h in harnesses}
+            for r in out.harnesses.values():
+                r.reason = out.reason
+            return out
         target = os.path.join(CACHE, crate + ("-nd" if no_default_features else "") +
                               ("-" + "-".join(features) if features else ""))
         os.makedirs(target, exist_ok=True)
